@@ -91,6 +91,10 @@ def join_doc(sep, lst):
             out += doc_of(el)
         return merge(out)
     if lst[0] == 'comp':
+        if sep == '' and len(lst[1]) == 1 and lst[1][0][1] == TRUE:
+            els = lit_elements(lst[1][0][0][3])
+            if els is not None:
+                return merge(unroll(els, lst[1][0][0], lst[2]))
         return [Rep(lst[1], doc_of(lst[2]), sep)]
     if lst[0] == 'cat':
         out = []
@@ -102,6 +106,48 @@ def join_doc(sep, lst):
     if lst[0] == 'ite':
         return [Alt(lst[1], join_doc(sep, lst[2]), join_doc(sep, lst[3]))]
     return [Hole(lst, sep)]
+
+
+def lit_elements(dom):
+    """elements of a list assembled from literals (appends / extends, possibly under a condition), or None"""
+    if dom[0] == 'list':
+        return [('el', x) for x in dom[1]]
+    if dom[0] == 'cat':
+        out = []
+        for p in dom[1]:
+            r = lit_elements(p)
+            if r is None:
+                return None
+            out += r
+        return out
+    if dom[0] == 'ite':
+        a, b = lit_elements(dom[2]), lit_elements(dom[3])
+        if a is None or b is None:
+            return None
+        # common prefix stays unconditional
+        k = 0
+        while k < len(a) and k < len(b) and a[k] == b[k]:
+            k += 1
+        return a[:k] + ([('alt', dom[1], a[k:], b[k:])] if (a[k:] or b[k:]) else [])
+    return None
+
+
+def _replace(t, old, new):
+    if t == old:
+        return new
+    if not isinstance(t, tuple):
+        return t
+    return tuple(_replace(x, old, new) if isinstance(x, tuple) else x for x in t)
+
+
+def unroll(els, b, value):
+    out = []
+    for e in els:
+        if e[0] == 'el':
+            out += doc_of(_replace(value, b, e[1]))
+        else:
+            out.append(Alt(e[1], merge(unroll(e[2], b, value)), merge(unroll(e[3], b, value))))
+    return out
 
 
 def merge(items):
